@@ -154,13 +154,14 @@ pub fn exec(case: &[i64]) -> Outcome {
         return o;
       }
       let doc = match res { Some(d) => d, None => return Outcome::new(vec![-9]).class("did-jwk-err").fail("did:jwk over a public JWK did not resolve") };
-      let expect: Jwk = serde_json::from_value(jwk_json).unwrap();
+      // compared as JSON too: the expected value must not come out of the deserialiser under test alone
+      let expect: Jwk = serde_json::from_value(jwk_json.clone()).unwrap();
       let rt = matches!(CoreDocument::from_json(&doc.to_json().unwrap()), Ok(ref b) if *b == doc);
       let all = doc.methods(None);
       let mut obs = vec![rt as i64, all.len() as i64];
       let id = format!("{}#0", did);
       for rel in [MethodRelationship::Authentication, MethodRelationship::AssertionMethod, MethodRelationship::KeyAgreement, MethodRelationship::CapabilityDelegation, MethodRelationship::CapabilityInvocation] {
-        obs.push(match doc.resolve_method(id.as_str(), Some(MethodScope::VerificationRelationship(rel))) { Some(m) => match m.data() { MethodData::PublicKeyJwk(j) if *j == expect => 1, _ => 2 }, None => 0 });
+        obs.push(match doc.resolve_method(id.as_str(), Some(MethodScope::VerificationRelationship(rel))) { Some(m) => match m.data() { MethodData::PublicKeyJwk(j) if *j == expect && serde_json::to_value(j).ok().as_ref() == Some(&jwk_json) => 1, _ => 2 }, None => 0 });
       }
       let mut o = Outcome::new(obs.clone()).class("did-jwk");
       if all.len() != 1 { o = o.fail("did:jwk document does not have exactly one method"); }
@@ -194,6 +195,21 @@ pub fn gen(rng: &mut Rng, thorough: bool, sink: &mut Sink) {
       sink.case(c, "multi-permutations");
     } }
   } }
+  // every input sequence of length <= 4 over three DIDs (two methods): repeats in every position relative to first occurrences
+  { let pool = [(1i64, 1i64), (1, 2), (2, 1)]; let mut seqs: Vec<Vec<(i64, i64)>> = vec![vec![]];
+    for len in 1..=4usize { let mut idx = vec![0usize; len]; loop { seqs.push(idx.iter().map(|i| pool[*i]).collect()); let mut k = 0; while k < len { idx[k] += 1; if idx[k] < 3 { break; } idx[k] = 0; k += 1; } if k == len { break; } } }
+    for t in &tables[1..] { for l in &seqs {
+      let mut distinct: Vec<(i64, i64)> = vec![]; for d in l { if !distinct.contains(d) { distinct.push(*d); } }
+      if distinct.len() == l.len() && !thorough { continue; }       // sequences without a repeat are covered above
+      let all = (1u32 << distinct.len()) - 1;
+      for p in perms(distinct.len()) { for sc in [all, all & !1] {
+        let mut c = head(2, t); c.push(l.len() as i64);
+        for d in l { let k = distinct.iter().position(|x| x == d).unwrap(); c.extend([d.0, d.1, ((sc >> k) & 1) as i64]); }
+        c.push(distinct.len() as i64); for k in &p { c.extend([distinct[*k].0, distinct[*k].1]); }
+        sink.case(c, "multi-repeats");
+      } }
+    } }
+  }
   if thorough { for _ in 0..300 { let t = &tables[3]; let n = 6; let l: Vec<(i64, i64)> = (0..n).map(|k| (1 + k % 3, 1 + k / 3)).collect(); let mut p: Vec<usize> = (0..n as usize).collect(); for i in (1..p.len()).rev() { let j = rng.below(i as u64 + 1) as usize; p.swap(i, j); }
     let mut c = head(2, t); c.push(n); for d in &l { c.extend([d.0, d.1, rng.chance(9, 10) as i64]); } c.push(n); for k in &p { c.extend([l[*k].0, l[*k].1]); } sink.case(c, "multi-random-6"); } }
   for key in 0..4 { sink.case(vec![3, 0, 9, key], "did-jwk"); sink.case(vec![4, 0, 9, key], "did-jwk-private"); }
